@@ -43,8 +43,8 @@ Proof. vm_compute. reflexivity. Qed.
 (* and the lowp entries do: the statement above is not vacuous *)
 Example C03_lowp_entries_do_approximate : existsb (fun e => andb (is_lowp_name (fst e)) (negb (approx_free_tree (snd e)))) Gen_C03_sse2.catalogue = true.
 Proof. vm_compute. reflexivity. Qed.
-(* the statement is about all 171 entries (35 of them integer), none untraceable *)
-Theorem C03_catalogue_size : List.length names = 171%nat. Proof. reflexivity. Qed.
+(* the statement is about all 176 entries (35 of them integer), none untraceable *)
+Theorem C03_catalogue_size : List.length names = 176%nat. Proof. reflexivity. Qed.
 (* non-vacuity: the premises of the domain-restricted entries are satisfiable, and a compared value is defined *)
 Example C03_domain_inhabited : D_big (fun _ _ _ => 1%R) /\ D_round (fun _ _ _ => 1%R) /\ D_mod (fun _ _ _ => 1%R) /\ D_nonneg (fun _ _ _ => 1%R).
 Proof.
